@@ -65,6 +65,9 @@ type opBody struct {
 	before   bool // operations were all done before Connect: the body only delivers
 	events   []string
 	odd      bool // the second alphabet
+	// reconnects: how often "Connect returned, call it again" was chosen; again: Connect is to be called once more
+	reconnects int
+	again      bool
 }
 
 func (b *opBody) alphabet() (ks, kts, ets []string) {
@@ -116,9 +119,18 @@ func (b *opBody) step() (ev string, done bool) {
 	}
 	kinds, _, evTypes := b.alphabet()
 	n := len(kinds) + len(evTypes) + len(b.removers) + 2
-	k := vrt.Choose(n, "operation")
+	total := n
+	if !b.before && b.reconnects == 0 {
+		total++ // "this stream ends, Connect returns and is called again"
+	}
+	k := vrt.Choose(total, "operation")
 	b.nops++
 	switch {
+	case k == n:
+		b.w.Ops = append(b.w.Ops, "the stream ends; Connect is called again on the same Connection")
+		b.reconnects++
+		b.again = true
+		return "", true
 	case k == n-2:
 		// a chunk that only names a type (a keep-alive "event: a" + blank line). Whether it is dispatched as an
 		// event without data is not this property's business; the type must not stick to the next event.
@@ -225,6 +237,11 @@ func seqBody(maxOps int, before bool, odd ...bool) func() {
 			}
 		}
 		w.Err = b.conn.Connect()
+		for b.again {
+			// the same Connection, the same subscriptions, a fresh response body continuing the operation sequence
+			b.again, b.pending = false, ""
+			w.Err = b.conn.Connect()
+		}
 		w.Done = true
 	}
 }
@@ -495,7 +512,7 @@ func Scenarios(tier string) []run.Scenario {
 
 var Check = &run.Check{
 	ID: "C13", Level: "model_checking",
-	Rule: "Sequential: the explorer chooses EVERY sequence of <= 5 (thorough 6) operations from {SubscribeEvent(a), SubscribeEvent(b), SubscribeMessages, SubscribeToAll, call any remover returned so far (also repeatedly and stale), deliver an event of type '', a, b, c, deliver a chunk that only names a type}, (and the same one level shallower over the types NUL, 'message', blank and empty) performed on the Connect goroutine between two events (inside the response body's Read) or all before Connect; a list model of live subscriptions prescribes each callback's exact event sequence. Concurrent: Connect dispatching 2-3 events while threads subscribe, remove, remove twice, re-subscribe, call a stale remover, and call one remover from two threads at once, with fast and slow (yielding) callbacks; all interleavings of the instrumented RWMutex operations and all map orders (state-key pruning); online oracle: no invocation after the remover returned, exactly once for callbacks that were subscribed at hand-over and not yet being removed when the dispatch ended, per-callback stream order.",
+	Rule: "Sequential: the explorer chooses EVERY sequence of <= 5 (thorough 6) operations from {SubscribeEvent(a), SubscribeEvent(b), SubscribeMessages, SubscribeToAll, call any remover returned so far (also repeatedly and stale), deliver an event of type '', a, b, c, deliver a chunk that only names a type, let Connect return and call it again on the same Connection}, (and the same one level shallower over the types NUL, 'message', blank and empty) performed on the Connect goroutine between two events (inside the response body's Read) or all before Connect; a list model of live subscriptions prescribes each callback's exact event sequence. Concurrent: Connect dispatching 2-3 events while threads subscribe, remove, remove twice, re-subscribe, call a stale remover, and call one remover from two threads at once, with fast and slow (yielding) callbacks; all interleavings of the instrumented RWMutex operations and all map orders (state-key pruning); online oracle: no invocation after the remover returned, exactly once for callbacks that were subscribed at hand-over and not yet being removed when the dispatch ended, per-callback stream order.",
 	Assumptions: []string{
 		"data races on plain memory are outside the scheduler's view (DESIGN.md 2.1 and 8); the mutex discipline is explored at lock granularity",
 	},
